@@ -103,16 +103,20 @@ class Reporter:
             os.makedirs(REPLAY_DIR, exist_ok=True)
         out = sys.stdout
         for v, k in listed:
-            print(f"KNOWN-FINDING: property={self.prop} {v.rule} {v.construct}: {k.get('what', v.message)}", file=out)
+            if not self.quiet:
+                print(f"KNOWN-FINDING: property={self.prop} {v.rule} {v.construct}: {k.get('what', v.message)}",
+                      file=out)
         n = 0
         for v, _ in unlisted:
             n += 1
             replay = os.path.join(REPLAY_DIR, f"{self.prop}-{n}.json")
-            print(f"{v.where}: {v.rule} [{v.construct}] {v.message}", file=out)
+            if not self.quiet:
+                print(f"{v.where}: {v.rule} [{v.construct}] {v.message}", file=out)
             if write:
                 with open(replay, "w") as fh:
                     json.dump({"property": self.prop, "root": self.root, **v.to_json()}, fh, indent=1, default=str)
-            print(f"VIOLATION property={self.prop} replay={replay}", file=out)
+            if not self.quiet:
+                print(f"VIOLATION property={self.prop} replay={replay}", file=out)
         per_rule = {}
         for o in self.obligations:
             r = per_rule.setdefault(o.rule, {"obligations": 0, "discharged": 0})
